@@ -64,7 +64,8 @@ type session struct {
 	specs map[int]string
 	dead  map[int]bool
 	// check15: compare the raw dump before/after every read-only or no-op call
-	check15 bool
+	check15  bool
+	sizeTick int
 }
 
 func newSession(tr *transcript) *session {
@@ -144,6 +145,22 @@ func (s *session) exec(op string, id int, args ...string) string {
 		readonly = true
 		cmd = fmt.Sprintf("size %d", id)
 		out = s.ro(t, func() string { return strconv.Itoa(t.Size()) })
+		// Size() must be the number of pairs All() yields (implementation against itself)
+		if n, err := strconv.Atoi(out); err == nil && s.sizeTick%4 == 0 {
+			cnt := -1
+			safely(func() string {
+				res, _ := t.Seq([]string{"all"}, 0, 1)
+				cnt = len(res[0])
+				return ""
+			})
+			if cnt != n {
+				s.tr.emit(cmd, out)
+				s.tr.emit(fmt.Sprintf("assert %d size-equals-number-of-pairs-All-yields", id), fmt.Sprintf("Size=%d,All=%d", n, cnt))
+				s.sizeTick++
+				return out
+			}
+		}
+		s.sizeTick++
 	case "dump":
 		cmd = fmt.Sprintf("dump %d", id)
 		out = safely(t.Dump)
